@@ -302,6 +302,10 @@ func tmText(cd cand, v variant, name string) string {
 	}
 	sb.WriteString("\n")
 	sb.WriteString(ptext)
+	if strings.Contains(ptext, "/Foo") {
+		// node flags are constants the user supplies by hand (cf. parsers/test/consts.go)
+		sb.WriteString("\n%%\n\n{{define \"onAfterParser\"}}\nconst Foo NodeFlags = 1\n{{end}}\n")
+	}
 	return sb.String()
 }
 
@@ -1019,6 +1023,8 @@ func rejectClass(msg string) string {
 		return "category-expression"
 	case strings.Contains(msg, "multiple fields found behind an assignment"):
 		return "assignment-over-several-fields"
+	case strings.Contains(msg, "reporting empty ranges at the end of a rule"):
+		return "empty-range-at-end-of-rule"
 	case strings.Contains(msg, "generate:"):
 		return "generate-error"
 	}
@@ -1255,11 +1261,12 @@ func run(c *core.Ctx) {
 			pending = append(pending, it)
 		}
 	}
-	limit := len(seeds) + 12
+	limit := len(seeds) + 6
 	if !c.Quick() {
 		limit = batchSize
 	}
 	done := 0
+	otherSeen := false
 	for _, ci := range order {
 		if c.Expired() {
 			break
@@ -1275,8 +1282,13 @@ func run(c *core.Ctx) {
 			continue
 		}
 		if genErr != "" {
-			c.Outcome("rejected: "+rejectClass(genErr), 1)
+			cls := rejectClass(genErr)
+			c.Outcome("rejected: "+cls, 1)
 			c.Add("grammars_rejected", 1)
+			if cls == "other" && !otherSeen {
+				otherSeen = true
+				c.Set("rejected_other_example", map[string]string{"rules": cd.Rules, "variant": v.Name, "error": genErr})
+			}
 			continue
 		}
 		if g.Parser == nil || g.Parser.Types == nil {
